@@ -1,5 +1,5 @@
 """C01 -- dump then strict load in the same dialect returns the original module."""
-from .. import langrules, encrules
+from .. import timerules, langrules, encrules
 
 
 def run(repo, res, tier):
@@ -12,10 +12,11 @@ def run(repo, res, tier):
         "keys that pass encode_assignment / encode_aggregation_block vs Token.is_parameter_name); W1 no text with "
         "significant white space reaches textwrap.wrap (taint of quoted text through encode_assignment; wrap flags); "
         "D1 isinstance dispatch (subclass before superclass, a branch per loader type, numbers via str()). "
-        "Not decided: equality of values, float text exactness, option combinations as such.")
+        "R1-R4: the writer of temporal values consumes every field, can write both offset signs, pads fractions, and writes only zone suffixes its reader accepts. Not decided: equality of values, float text exactness, option combinations as such.")
     res.assumptions = ["int()/float()/strptime acceptance models", "dateutil absent"]
     an = langrules.analyse(repo)
     langrules.rule_s1(repo, res, an, "own")
     langrules.rule_s2(repo, res, an)
     encrules.rule_w1(repo, res, which=("quoted", "flags"))
     encrules.rule_d1(repo, res)
+    timerules.rule_r(repo, res)
